@@ -110,6 +110,7 @@ type TLE struct {
 	O     string   `json:"o"`
 	Views []TLView `json:"views"`
 	Reg   []string `json:"reg"`
+	After string   `json:"after"` // reg: "proxy-closed" if read after the node's proxy port was seen closed
 	Ms    int      `json:"ms"`
 }
 
